@@ -1,4 +1,5 @@
 """Turns tasks (function under contract / lemma / structural) into obligations."""
+import ast
 import os
 import traceback
 
@@ -42,6 +43,11 @@ def verify_function(task):
             st = State()
             facts = mk(ex, st) or []
             st.pc += [lit(f) for f in facts]
+            # a parameter the configuration leaves out takes the default the *source* gives it (constants only: a mutable default is the configuration's business)
+            _a = node.args
+            for _p, _d in list(zip(_a.args[len(_a.args) - len(_a.defaults):], _a.defaults)) + [(p_, d_) for p_, d_ in zip(_a.kwonlyargs, _a.kw_defaults) if d_ is not None]:
+                if _p.arg not in st.env and _p.arg not in (c.ghost or {}) and _p.arg not in (task.module_env or {}) and isinstance(_d, (ast.Constant, ast.UnaryOp)):
+                    st.env[_p.arg] = ex.ev(_d, st)
             for r in c.requires:
                 st.pc.append(ex.spec(r, st))
             ex.entry = deep_fork(st)
